@@ -70,7 +70,10 @@ class World(object):
         self.Qcopy = E.PointJacobi(self.curve, qa[0], qa[1], 1, n)
         self.Gcopy = E.PointJacobi(self.curve, gx * 4 % p, gy * 8 % p, 2, n)
         L = lowlevel()
-        self.pub = L.Public_key(self.G, self.Q, verify=False)
+        # the key object gets its OWN point object with the same coordinates (Z != 1): constructing a Public_key already
+        # reads the point, and Q must reach the scenarios untouched (cold caches, never scaled) - wave-10 seed C20_15
+        self.Qv = E.PointJacobi(self.curve, qa[0] * z * z % p, qa[1] * z * z * z % p, z, n)
+        self.pub = L.Public_key(self.G, self.Qv, verify=False)
         self.h = h
         # signature computed with private arithmetic (no shared object touched)
         from register_crypto_plugin.ecdsa import numbertheory
@@ -227,7 +230,7 @@ def run_schedule(cname, params, scenario, point, deep=False, rotate=0):
     codes = set()
     for m in methods:
         codes.add(getattr(getattr(w, "cls", E.PointJacobi), m).__code__)
-    shared = (w.G, w.Q)
+    shared = (w.G, w.Q) + ((w.Qv,) if getattr(w, "Qv", None) is not None else ())
     efile = E.__file__
     counter = [0]
     results = []
